@@ -474,6 +474,13 @@ func ConcProfileFor(name string, seed int64) ConcProfile {
 		p.PRollback, p.PFailIns, p.PMidDump = 0.3, 0.2, 0.3
 		p.Txns = 2
 		p.Snapshot = r.Intn(2) == 0 // a snapshot looks at the collection while transactions are in flight
+	case "c02i": // atomicity of inserts: failing inserts and rollbacks beside other transactions' inserts (an offset given back
+		// by one transaction is taken by another at once: nothing the first does later may touch it)
+		p.Cols = []ColDesc{{"a", "int", "add", numRepr()}}
+		p.PInsert, p.PDelete, p.PMerge = 0.6, 0.1, 0.3
+		p.PRollback, p.PFailIns, p.PMidDump = 0.5, 0.35, 0.3
+		p.Writers = 3
+		p.Txns = 2
 	}
 	return p
 }
